@@ -1,6 +1,6 @@
 SPECIFICATION Spec
 CONSTANT N = 3
-CONSTANT SITES <- Sites5
+CONSTANT SITES <- Sites4
 CONSTANT STENCIL1 <- StA3
 CONSTANT STENCIL2 <- StB3
 CONSTANT VANISH <- NoVanish
